@@ -1187,6 +1187,7 @@ func ruleValidateStartState(r *Run, rule string) {
 
 // propagationDyn: calls through a function-typed range variable (validators) must propagate their error.
 func propagationDyn(fl *Flow, paths []Path) (n int, bad string, pos token.Pos) {
+	paths = append(append([]Path{}, paths...), fl.Truncated()...)
 	for i := range paths {
 		p := &paths[i]
 		for ci, e := range p.Ev {
@@ -1208,13 +1209,8 @@ func propagationDyn(fl *Flow, paths []Path) (n int, bad string, pos token.Pos) {
 			switch u.Verdict {
 			case "nil", "returned":
 			case "nonnil":
-				if p.Exit == ExitReturn {
-					ri := FirstAfter(p, u.At, func(x Event) bool { return x.Kind == EvReturn })
-					if ri >= 0 {
-						if isNil, has := ReturnsNilLast(fl.Info, p.Ev[ri]); has && isNil && bad == "" {
-							bad, pos = "a failing validator does not reject the plan", e.Pos
-						}
-					}
+				if lost := LostAfterNonNil(fl, p, u); lost != "" && bad == "" {
+					bad, pos = "a failing validator does not reject the plan: "+lost, e.Pos
 				}
 			default:
 				if bad == "" && p.Exit == ExitReturn {
